@@ -50,6 +50,9 @@ class Kernel:
         self.pid = 1
         self.ppid = 0
         self.log = []
+        self.events = []         # ("fork", pid) / ("kill", pid, sig) in program order
+        self.hang = {}           # spawn index -> decisecond from which that child stops heartbeating (C11)
+        self.pid_plan = []       # pids handed out by the next fork() calls (pid wrap-around); then next_pid + 1, ...
 
     # -- helpers ------------------------------------------------------------------------------------
     def alive(self):
@@ -113,10 +116,14 @@ class Kernel:
 
     # -- os -----------------------------------------------------------------------------------------
     def fork(self):
-        self.next_pid += 1
-        pid = self.next_pid
+        if self.pid_plan:
+            pid = self.pid_plan.pop(0)
+        else:
+            self.next_pid += 1
+            pid = self.next_pid
         self.procs[pid] = "alive"
         self.order.append(pid)
+        self.events.append(("fork", pid))
         e = self.early.pop(0) if self.early else 0
         if e == 1 and not self.in_handler:
             self._zombify(pid, self._next_status())
@@ -128,6 +135,7 @@ class Kernel:
         if st is None:
             raise OSError(errno.ESRCH, "No such process")
         self.sent.append((pid, int(sig)))
+        self.events.append(("kill", pid, int(sig), self.now))
         idx = self.order.index(pid)
         if sig in (signal.SIGTERM, signal.SIGQUIT):
             if st == "alive" and idx not in self.stubborn:
@@ -211,6 +219,11 @@ class Tmp:
         self.frozen = None
 
     def last_update(self):
+        pid = self.worker.pid
+        if pid in self.K.order:
+            h = self.K.hang.get(self.K.order.index(pid))
+            if h is not None and self.K.now >= h:
+                return h / 10.0
         st = self.K.procs.get(self.worker.pid)
         if st in ("alive", "dying"):
             if self.frozen is not None:
